@@ -3,6 +3,7 @@
 package sim
 
 import (
+	"strconv"
 	"bytes"
 	"errors"
 	"fmt"
@@ -148,6 +149,18 @@ func c19ExecStorm(c *vcore.Ctx) *vcore.Violation {
 		c.Probe("exec_storm_children")
 	}
 	return nil
+}
+
+// maxOpenFd: the highest descriptor number open in this process
+func maxOpenFd() int {
+	m := 2
+	ents, _ := os.ReadDir("/proc/self/fd")
+	for _, e := range ents {
+		if n, err := strconv.Atoi(e.Name()); err == nil && n > m {
+			m = n
+		}
+	}
+	return m
 }
 
 func c19Run(c *vcore.Ctx) *vcore.Violation {
@@ -342,6 +355,23 @@ func c19Run(c *vcore.Ctx) *vcore.Violation {
 			var gtag string
 			var gsize int
 			var gk string
+			// the receiver's descriptor table has room for only some of the message's descriptors (its
+			// RLIMIT_NOFILE is nearly reached): the kernel installs what fits and flags the control data as
+			// truncated. Such a message is not intact; it may be rejected, it may not be handed on short.
+			tableFull := false
+			var oldLim syscall.Rlimit
+			if len(want.ids) >= 2 && src.Bool(1, 4, "descriptor_table_full") {
+				room := src.Int(len(want.ids), "table_room")
+				if syscall.Getrlimit(syscall.RLIMIT_NOFILE, &oldLim) == nil {
+					lim := oldLim
+					lim.Cur = uint64(maxOpenFd() + 1 + room)
+					if lim.Cur < oldLim.Cur && syscall.Setrlimit(syscall.RLIMIT_NOFILE, &lim) == nil {
+						tableFull = true
+						c.Fault("receiver_descriptor_table_full")
+						c.Logf("%s receives with room for %d of %d descriptors", e.name, room, len(want.ids))
+					}
+				}
+			}
 			err = c19Timed(e.raw, func() error {
 				var err error
 				if gob {
@@ -356,6 +386,9 @@ func c19Run(c *vcore.Ctx) *vcore.Violation {
 				}
 				return err
 			})
+			if tableFull {
+				syscall.Setrlimit(syscall.RLIMIT_NOFILE, &oldLim)
+			}
 			if gob && want.kind != "reply" && err == nil && gk != want.kind {
 				return vcore.Violate(prop, "wrong_message", "gob/kind", "received a %s command, the head of the queue is %s", gk, want.kind)
 			}
@@ -372,7 +405,7 @@ func c19Run(c *vcore.Ctx) *vcore.Violation {
 					v.Site = layer + "/rejected_receive"
 					return v
 				}
-				fits := want.size <= bufSize && (!gob || want.size < 30000)
+				fits := want.size <= bufSize && (!gob || want.size < 30000) && !tableFull
 				if fits && want.size > 0 {
 					return vcore.Violate(prop, "receive_failed", layer+"/"+sizeClass(want.size), "receiving a queued message of %d bytes into a %d byte buffer failed: %v", want.size, bufSize, err)
 				}
